@@ -1483,3 +1483,51 @@ func c07r13(rc *core.RC) {
 		rc.Unknown("decoder/destination-stores", token.NoPos, "found %d stores through the destination pointer in Decode/DecodeStream methods (confirmed: more than 20)", n)
 	}
 }
+
+// ---- C07.R14 the embedded struct is allocated with its own type ----
+
+// For a struct that embeds a pointer to a struct the decoder of a promoted member allocates the embedded struct when
+// the pointer is nil (anonymousFieldDecoder: unsafe_New(structType)). The type it is given has to be the type the
+// embedded pointer points to: compileStruct has it as pdec.typ, the type of the pointer decoder compiled for the
+// field. The enclosing struct's type (typ, two lines above in a comparison with it) is a *runtime.Type as well: with
+// it the allocation has the size and the pointer bitmap of the wrong type, members beyond it are written into the
+// neighbouring heap objects and pointers in it are not traced. Obligation: the first argument of every call of
+// newAnonymousFieldDecoder is X.typ with X a *ptrDecoder.
+func c07r14(rc *core.RC) {
+	p := rc.P
+	pk := p.Pkg("decoder")
+	ctor := p.FuncObj("decoder", "newAnonymousFieldDecoder")
+	if pk == nil || ctor == nil {
+		rc.Unknown("decoder.newAnonymousFieldDecoder", token.NoPos, "constructor not found")
+		return
+	}
+	info := pk.TypesInfo
+	n := 0
+	for _, fd := range p.Funcs("decoder") {
+		if fd.Body == nil {
+			continue
+		}
+		name := p.FuncName(fd)
+		k := 0
+		ast.Inspect(fd.Body, func(m ast.Node) bool {
+			c, ok := m.(*ast.CallExpr)
+			if !ok || core.Callee(info, c) != ctor || len(c.Args) == 0 {
+				return true
+			}
+			k++
+			n++
+			rc.Touch(name)
+			good := false
+			if sel, ok := core.Unparen(c.Args[0]).(*ast.SelectorExpr); ok && sel.Sel.Name == "typ" {
+				if t := info.TypeOf(sel.X); t != nil && strings.HasSuffix(t.String(), "decoder.ptrDecoder") {
+					good = true
+				}
+			}
+			rc.Check(good, fmt.Sprintf("%s/embedded-struct-allocation#%d its-own-type", name, k), c.Pos(), "newAnonymousFieldDecoder is handed %s as the type to allocate: it has to be the element type of the embedded pointer, the typ of the *ptrDecoder compiled for the field (the enclosing struct's type gives the allocation the wrong size and pointer bitmap: writes into neighbouring objects, untraced pointers)", core.Src(p.Fset, c.Args[0]))
+			return true
+		})
+	}
+	if n < 1 {
+		rc.Unknown("decoder/anonymous-field-decoders", token.NoPos, "no call of newAnonymousFieldDecoder found")
+	}
+}
